@@ -21,6 +21,7 @@ func init() {
 
 func runC15(c *Ctx) {
 	maxM := PCall("pk.Keeper.GetMaxProviderConsensusValidators", -1, nil)
+	defer checkParamGetters(c, "pk", "GetMaxProviderConsensusValidators")
 	bonded := PCall("ccv.StakingKeeper.GetBondedValidatorsByPower", 0, nil)
 
 	// ---- R1 ------------------------------------------------------------------------------------
